@@ -21,7 +21,7 @@ func init() {
 		Assumptions: []string{"the watchdog is the only real-clock read; it influences no choice", "panics inside the Go runtime that are not recoverable (stack exhaustion, out of memory) end the worker and are attributed to the run in progress by the driver"},
 		Real:        []string{"github.com/veraison/go-cose (all decoders and follow-up operations)", "github.com/fxamacker/cbor/v2", "Go crypto"},
 		Stubs:       []string{"wire / key store with fault injection", "foreign peer and key writer (reference encoder)", "entropy source"},
-		QuickRuns:   12000, ThoroughRuns: 600000,
+		QuickRuns:   400000, ThoroughRuns: 6000000,
 	}
 }
 
